@@ -305,7 +305,7 @@ func TestVerif_C27(t *testing.T) {
 		}
 		kSmall := vx.Pick(c, 2, 3)
 		kBig := vx.Pick(c, 1, 2)
-		c.Rule(fmt.Sprintf("fault enumeration over the handshake of two real quic Endpoints (real TLS, synctest bubble, harness-owned network): scenarios = RequireAddressValidation {off,on} x ClientHello {one, two Initial datagrams} x server certificate chain {1, 10 certificates: the server flight exceeds 3x1200 bytes}; per scenario the default run plus every placement of <= k deviations at increasing datagram indices 0..N+2 (both directions; N = largest datagram count of three default runs; cases are assigned to shards by content hash), kinds {drop, dup, hold1, late (timer first), trunc to 1199/600/100/1 bytes, spoofed source address} (quick tier: pairs use {drop, dup, late, trunc600, trunc100, spoof}); trunc/spoof only take effect on client->server datagrams; k=%d for the one-datagram-ClientHello scenarios (3 deviations: kinds {drop, late, trunc600, trunc100, spoof}), k=%d for the others; every run lasts 12 s of fake time (past the handshake timeout) so that all server PTOs fire. Monitor at the network, per remote address a: after every datagram the server endpoint writes to a, bytes written to a <= 3 x bytes delivered to the server from a, unless a server conn for a has antiAmplificationLimit==unlimited (white-box, read at the quiescent point) and a datagram carrying a complete Handshake packet (clear-text header walk) was delivered from a. Retry packets and datagrams to the spoofed address are counted. Non-trivial = all deviations took effect and the server came within one full datagram (1200 bytes) of the limit or was seen blocked by it", kSmall, kBig))
+		c.Rule(fmt.Sprintf("fault enumeration over the handshake of two real quic Endpoints (real TLS, synctest bubble, harness-owned network): scenarios = RequireAddressValidation {off,on} x ClientHello {one, two Initial datagrams} x server certificate chain {1, 10 certificates: the server flight exceeds 3x1200 bytes}; per scenario the default run plus every placement of <= k deviations at increasing datagram indices 0..N+2 (both directions; N = largest datagram count of three default runs; cases are assigned to shards by content hash), kinds {drop, dup, hold1, late (timer first), trunc to 1199/600/100/1 bytes, spoofed source address} (quick tier: pairs use {drop, dup, late, trunc600, spoof}); trunc/spoof only take effect on client->server datagrams; k=%d for the one-datagram-ClientHello scenarios (3 deviations: kinds {drop, late, trunc600, trunc100, spoof}), k=%d for the others; every run lasts 12 s of fake time (past the handshake timeout) so that all server PTOs fire. Monitor at the network, per remote address a: after every datagram the server endpoint writes to a, bytes written to a <= 3 x bytes delivered to the server from a, unless a server conn for a has antiAmplificationLimit==unlimited (white-box, read at the quiescent point) and a datagram carrying a complete Handshake packet (clear-text header walk) was delivered from a. Retry packets and datagrams to the spoofed address are counted. Non-trivial = all deviations took effect and the server came within one full datagram (1200 bytes) of the limit or was seen blocked by it", kSmall, kBig))
 		c.Assume("'validated' is the implementation's own notion (a Handshake packet was processed); an address validated by a Retry token alone is still treated as unvalidated, which is stricter than RFC 9000 requires")
 		c.Assume("stateless resets are not enabled (no StatelessResetKey) and version negotiation is not triggered (both endpoints speak version 1)")
 
@@ -383,7 +383,7 @@ func TestVerif_C27(t *testing.T) {
 		multi("k1", 1, scns, c27Kinds)
 		kinds2 := c27Kinds
 		if c.Quick() {
-			kinds2 = []c19Dev{{Kind: "drop"}, {Kind: "dup"}, {Kind: "late"}, {Kind: "trunc", Arg: 600}, {Kind: "trunc", Arg: 100}, {Kind: "spoof"}}
+			kinds2 = []c19Dev{{Kind: "drop"}, {Kind: "dup"}, {Kind: "late"}, {Kind: "trunc", Arg: 600}, {Kind: "spoof"}}
 		}
 		multi("k2-small", 2, smallS, kinds2)
 		if kBig >= 2 {
